@@ -131,6 +131,13 @@ def probe (s : State) : State × String :=
   let s' := if s.mem.locked then (step r.1 .lock).1 else r.1
   (s', "probe " ++ joinWith "," r.2)
 
+/-- address designator `<key>.<branch>.<index>` inside the harness's tables (keys 1..4 and 100..111, index < 24) -/
+def des? (v : String) : Option Addr :=
+  match (v.splitOn ".").map String.toNat? with
+  | [some k, some b, some i] =>
+    if ((1 ≤ k ∧ k ≤ 4) ∨ (100 ≤ k ∧ k ≤ 111)) ∧ b ≤ 1 ∧ i < 24 then some ⟨k, b == 1, i⟩ else none
+  | _ => none
+
 def fresh : St := { s := init, names := [1], us := [] }
 
 def step' (st : Option St) (line : String) : Option St × String :=
@@ -183,9 +190,22 @@ def step' (st : Option St) (line : String) : Option St × String :=
             | some "big" => some 2147483648
             | some v => match v.toNat? with | some n => if n ≤ 8 then some n else none | none => none
             | none => none
-          match key?, n? with
-          | some key, some n => wrap (exec st sc (.importAcct (op == "importdry") sc nm key n (op == "import" && cf)) (addName st.names nm))
-          | _, _ => (some st, "bad-op")
+          -- `race=1 ra=<key.br.idx>` (importdry only): an AddressInfo lookup of that address of the scope by another
+          -- goroutine while the dry run's transaction is open; whatever the interleaving, the result is the dry run
+          -- followed by the lookup's cache fill
+          let race? : Option (Option Addr) :=
+            match kv rest "race" with
+            | none => some none
+            | some "0" => some none
+            | some "1" => if op == "importdry" then (kv rest "ra").bind fun v => (des? v).map some else none
+            | _ => none
+          match key?, n?, race? with
+          | some key, some n, some race =>
+            let r := exec st sc (.importAcct (op == "importdry") sc nm key n (op == "import" && cf)) (addName st.names nm)
+            match race with
+            | none => wrap r
+            | some ad => (some { r.1 with s := (step r.1.s (.cmp [] [(sc, ad)])).1 }, r.2)
+          | _, _, _ => (some st, "bad-op")
         | _, _, _ => (some st, "bad-op")
       | "rename" =>
         match sc?, a?, nm? with
@@ -195,6 +215,7 @@ def step' (st : Option St) (line : String) : Option St × String :=
         match sc?, nm? with
         | some sc, some nm => wrap (exec st sc (.newAcct sc nm) (addName st.names nm))
         | _, _ => (some st, "bad-op")
+      | "restart" => wrap (exec st 0 .restart st.names)
       | "lock" => wrap (exec st 0 .lock st.names)
       | "unlock" =>
         match kv rest "pass" with
